@@ -464,13 +464,32 @@ class Engine:
             return st
         if d.op == "xor" and d.ops[1].kind == "int" and d.ops[1].v in (1, -1, True):
             return self._refine_cond(res, d.ops[0], not taken, st, depth + 1)
+        if d.op in ("zext", "sext", "trunc") and d.ops[0].kind == "reg":
+            return self._refine_cond(res, d.ops[0], taken, st, depth + 1)
         if d.op == "phi":
-            # short-circuit value: refine only when all incoming agree
+            # a flag with a single source on this (jump-threaded) path is that source; otherwise refine nothing
+            inc = [v for v, lab in d.x["incoming"]]
+            if len(inc) == 1:
+                return self._refine_cond(res, inc[0], taken, st, depth + 1)
             return st
         if d.op != "icmp":
             return st
         a, bb = d.ops
         pred = d.x["pred"]
+        # a materialised boolean tested against 0 / 1: `(x < 0) != 0`
+        if pred in ("eq", "ne"):
+            for x, y in ((a, bb), (bb, a)):
+                if y.kind == "int" and y.v in (0, 1) and x.kind == "reg":
+                    xd = fn.defs.get(x.v)
+                    hops = 0
+                    while xd is not None and xd.op in ("zext", "sext", "trunc") and xd.ops[0].kind == "reg" and hops < 4:
+                        x = xd.ops[0]
+                        xd = fn.defs.get(x.v)
+                        hops += 1
+                    if xd is not None and (xd.op == "icmp" or (xd.op == "phi" and len(xd.x["incoming"]) == 1)) and hops > 0 or \
+                            (xd is not None and xd.op == "phi" and len(xd.x["incoming"]) == 1 and xd.type == "i32"):
+                        same = (pred == "ne") == (y.v == 0)
+                        return self._refine_cond(res, x, taken if same else not taken, st, depth + 1)
         # null-ness of the resource itself
         for x, y in ((a, bb), (bb, a)):
             if is_res(res, x) and (y.kind == "null" or (y.kind == "int")):
